@@ -74,6 +74,7 @@ theorem core_writeFree (ext : Externals) (a : CeremonyArgs) : WriteFree (ksrsign
         split
         · exact wf_pure _
         · refine wf_bind _ _ (wf_liftTok _) (fun newSkr => ?_)
+          refine wf_bind _ _ (wf_lift _) (fun _ => ?_)
           exact wf_bind _ _ (wf_lift _) (fun _ => wf_pure _)
 
 /-! ## The write happens exactly on success -/
@@ -159,6 +160,8 @@ structure Gates (ext : Externals) (a : CeremonyArgs) (t : Token) (skr : Response
   /-- the publish / retire checks on the new SKR passed -/
   safety_valid : ∀ last, a.prev = some (.ok last) →
       checkLastSkrAndNewSkr last skr a.requestPolicy = .ok ()
+  /-- the SKR could be serialised (this is decided before the output file is opened) -/
+  serialisable : skrSerialisable skr = .ok ()
   /-- the SKR is what `create_skr` returned against this very token: every requested signature came
       back and verified in software, every response bundle passed re-validation (C01 / C02 theorems
       apply to it) -/
@@ -282,6 +285,11 @@ theorem core_some_implies_gates (ext : Externals) (a : CeremonyArgs) (t : Token)
           clear h7
           obtain ⟨hpost, rfl⟩ := lift_ok _ _ _ _ _ hpost0
           clear hpost0
+          obtain ⟨u4, s9, hser0, h9⟩ := CerM.bind_ok _ _ _ _ _ _ h8
+          clear h8
+          obtain ⟨hser, rfl⟩ := lift_ok _ _ _ _ _ hser0
+          clear hser0
+          have h8 := h9
           simp only [pure, Prod.mk.injEq, Except.ok.injEq, Option.some.injEq] at h8
           obtain ⟨rfl, _⟩ := h8
           have hconf : a.force = true ∨ confirmed a.answer = true := by
@@ -298,7 +306,7 @@ theorem core_some_implies_gates (ext : Externals) (a : CeremonyArgs) (t : Token)
             obtain ⟨hc1, hc2⟩ := hchain
             rw [← hc2]
             exact Prod.ext hc1 rfl
-          refine ⟨⟨actions, req, hact, hksr, hval⟩, ?_, ?_, hconf, ?_, ?_⟩
+          refine ⟨⟨actions, req, hact, hksr, hval⟩, ?_, ?_, hconf, ?_, by cases u4; exact hser, ?_⟩
           · intro r' hr'
             rcases stagePrev_ok ext a prevO hp with ⟨hn, _⟩ | ⟨last, hl, _, hv⟩
             · rw [hn] at hr'; simp at hr'
